@@ -44,6 +44,8 @@ def run_impl(kinds, mode, chunk=0):
     from edxml import EDXMLPullParser, EDXMLPushParser
     from edxml.error import EDXMLValidationError
     rec = {'retained': [], 'positions': [], 'root': None}
+    custom = mode.endswith('+custom-event-class')
+    mode = mode.replace('+custom-event-class', '')
     base = EDXMLPullParser if mode in ('pull', 'pullfile') else EDXMLPushParser
 
     class P(base):
@@ -61,6 +63,12 @@ def run_impl(kinds, mode, chunk=0):
     children = doc_children(kinds)
     data = G.document(children)
     p = P()
+    if custom:
+        from edxml.event import ParsedEvent
+
+        class MyEvent(ParsedEvent):
+            pass
+        p.set_custom_event_class(MyEvent)
     ok = True
     try:
         if mode == 'pull':
@@ -148,6 +156,7 @@ def main(argv):
         modes = ['pushb', 'pull', 'pushall', 'push%d' % rng.choice([1, 7, 37, 200])]
         if n > 1000:
             modes = ['pushb', 'pullfile', 'push%d' % rng.choice([37, 61, 4096])]
+        modes += [rng.choice(['pull', 'pushb', 'pushall']) + '+custom-event-class']
         for mode in modes:
             chunk = int(mode[4:]) if mode.startswith('push') and mode[4:].isdigit() else 0
             m = 'chunk' if chunk else mode
